@@ -292,11 +292,11 @@ theorem scale_prepare (k : α) (dens : Bool) (m : Model α) : prepare (scaleMode
   prepare_scaleModel k dens m
 
 /-- **degree-one homogeneity of the model's right-hand side.**  Hypotheses: `b` has the index tables
-of `m`; no realised weight and no mixing-matrix entry reads the compartment values (`stateFree`,
+of `m`; no realised weight and no mixing-matrix entry reads the compartment values (`stateFreeI`,
 decidable; they may depend on parameters and time); `k > 0`; `dens` is `true` exactly when
 transmission is density dependent.  Then at every state and time the right-hand side of the scaled
 model at `k·x` is `k` times that of `m` at `x` (and defined exactly when the latter is). -/
-theorem scale_rhs (m : Model α) (b : Backend) (hb : BackendFor m b) (hm : stateFree m = true) (k : α) (hk : 0 < k)
+theorem scale_rhs (m : Model α) (b : Backend) (hb : BackendFor m b) (hm : stateFreeI m = true) (k : α) (hk : 0 < k)
     (dens : Bool) (hd : dens = (b.procType == some false)) (p : List (String × α)) (x : List α) (t : α) :
     rhs (scaleModel k dens m) b p (vscale k x) t = (rhs m b p x t).map (vscale k) :=
   rhs_scale hb hm k hk dens hd p x t
@@ -305,7 +305,7 @@ theorem scale_rhs (m : Model α) (b : Backend) (hb : BackendFor m b) (hm : state
 (Euler and RK4; frequency-dependent transmission with `dens = false`, density-dependent with
 `dens = true` and the contact rates divided by `k`).  `y0` is the initial population of `m`; the
 scaled model is started from `k·y0`; every row of compartment values is `k` times the old row. -/
-theorem scale_trajectory (m : Model α) (b : Backend) (hprep : prepare m = .ok b) (hm : stateFree m = true)
+theorem scale_trajectory (m : Model α) (b : Backend) (hprep : prepare m = .ok b) (hm : stateFreeI m = true)
     (k : α) (hk : 0 < k) (dens : Bool) (hd : dens = (b.procType == some false)) (p : List (String × α))
     (y0 times : List α) :
     prepare (scaleModel k dens m) = .ok b ∧
@@ -316,7 +316,7 @@ theorem scale_trajectory (m : Model α) (b : Backend) (hprep : prepare m = .ok b
     (fun y t => field_scale hb hm k hk dens hd p y t) y0 times
   exact ⟨by rw [prepare_scaleModel]; exact hprep, h.1, h.2⟩
 
-theorem scale_trajectory_odeint (m : Model α) (b : Backend) (hprep : prepare m = .ok b) (hm : stateFree m = true)
+theorem scale_trajectory_odeint (m : Model α) (b : Backend) (hprep : prepare m = .ok b) (hm : stateFreeI m = true)
     (k : α) (hk : 0 < k) (dens : Bool) (hd : dens = (b.procType == some false)) (p : List (String × α))
     (tb : Tableau α) (ctl : Control α) (hctl : ScaleInvariantCtl ctl k) (fuel : Nat) (dt0 : α) (y0 ts : List α) :
     odeint tb ctl (field (scaleModel k dens m) b p) fuel dt0 (vscale k y0) ts
@@ -328,7 +328,7 @@ end scaleModel
 
 section scaleExamples
 /-- non-vacuity (frequency dependent): hypotheses hold for the example model with `k = 3` ... -/
-example : stateFree exModel = true ∧ (false = (exBackend.procType == some false)) := by decide
+example : stateFreeI exModel = true ∧ (false = (exBackend.procType == some false)) := by decide
 /-- ... the scaled model has its import multiplied by 3 and everything else untouched ... -/
 example : (scaleModel (3 : Rat) false exModel).flows.map (fun f => (f.name, f.adjs.length)) =
     [("infection", 0), ("recovery", 1), ("death", 0), ("births", 0), ("imports", 1)] := by decide
@@ -341,7 +341,7 @@ example : rk4 (field (scaleModel 3 false exModel) exBackend exParams) (vscale 3 
 example : rhs exModel exBackend exParams [270, 30, 0] 0 ≠ (rhs exModel exBackend exParams [90, 10, 0] 0).map (vscale 3) := by
   decide +kernel
 /-- density dependent: with the contact rate divided by `k` -/
-example : stateFree exModelD = true ∧ (true = (exBackendD.procType == some false)) := by decide
+example : stateFreeI exModelD = true ∧ (true = (exBackendD.procType == some false)) := by decide
 example : rhs (scaleModel 3 true exModelD) exBackendD exParams [270, 30, 0] 0
       = (rhs exModelD exBackendD exParams [90, 10, 0] 0).map (vscale 3) ∧
     rhs exModelD exBackendD exParams [90, 10, 0] 0 = some [-1799, 1799, 5] := by decide +kernel
